@@ -145,6 +145,8 @@ pub struct PShift {
     pub required_breaks: Vec<(f64, f64, f64)>,
     /// write the times of the required breaks as offsets from the departure (needs start.latest == start.earliest)
     pub required_offset: bool,
+    /// recharge stations: (max distance between recharges, stations as (location, duration, tag))
+    pub recharge: Option<(f64, Vec<(usize, f64, Option<String>)>)>,
 }
 
 #[derive(Clone, Debug, Default)]
@@ -327,6 +329,19 @@ impl PProblem {
                                 .collect();
                             so.insert("breaks".into(), json!(breaks));
                         }
+                        if let Some((max_distance, stations)) = &s.recharge {
+                            let st: Vec<Value> = stations
+                                .iter()
+                                .map(|(loc, duration, tag)| {
+                                    let mut o = json!({"location": {"index": loc}, "duration": duration});
+                                    if let Some(t) = tag {
+                                        o["tag"] = json!(t);
+                                    }
+                                    o
+                                })
+                                .collect();
+                            so.insert("recharges".into(), json!({"maxDistance": max_distance, "stations": st}));
+                        }
                         if !s.reloads.is_empty() {
                             let reloads: Vec<Value> = s
                                 .reloads
@@ -502,6 +517,11 @@ impl PProblem {
                 for r in &s.reloads {
                     note(r.loc, &mut used);
                 }
+                if let Some((_, stations)) = &s.recharge {
+                    for (l, _, _) in stations {
+                        note(*l, &mut used);
+                    }
+                }
             }
         }
         used.sort();
@@ -524,6 +544,11 @@ impl PProblem {
                 }
                 for r in s.reloads.iter_mut() {
                     r.loc = rank(r.loc);
+                }
+                if let Some((_, stations)) = s.recharge.as_mut() {
+                    for st in stations.iter_mut() {
+                        st.0 = rank(st.0);
+                    }
                 }
             }
         }
